@@ -11,7 +11,7 @@
     The channel variants run the same loop and hand over the same list (their sender is dropped when
     the function returns: checked on the implementation by the correspondence harness). *)
 From Coq Require Import NArith List Bool.
-From ADF Require Import Spec.Spec Gen.GenFlags Gen.TieFlagRand Gen.TieFlagExhaust Bdd.Store Bdd.WF Bdd.Node Adf.Native Adf.NativeBase Adf.NoGood Adf.Search Adf.NgSearchProofs.
+From ADF Require Import Spec.Spec Gen.GenFlags Gen.TieFlagRand Gen.TieFlagExhaust Gen.GenDispatch Gen.TieDispatch Bdd.Store Bdd.WF Bdd.Node Adf.Native Adf.NativeBase Adf.NoGood Adf.Search Adf.NgSearchProofs.
 Import ListNotations.
 Local Open Scope N_scope.
 
@@ -119,3 +119,14 @@ Theorem C05_repair_same_models : forall c ac two h1 rf1 b1 d1 h2 rf2 b2 d2 st s1
   forall v, In v (map interp_of l1) <-> In v (map interp_of l2).
 Proof. exact ng_repair_same_models. Qed.
 Print Assumptions C05_repair_same_models.
+
+From Coq Require String.
+Import String.
+(** every variant of the Heuristic enum is sent to the function of that name, the default is Simple
+    (table REGENERATED from lib/src/adf/heuristics.rs, Gen/GenDispatch.v) *)
+Theorem C05_source_heuristics_dispatch :
+  g_heuristics = [("Custom", "f"); ("MinModMaxVarImpMinPaths", "heu_mc_maxvarimp_minpaths");
+                  ("MinModMinPathsMaxVarImp", "heu_mc_minpaths_maxvarimp"); ("Rand", "heu_rand"); ("Simple", "heu_simple")]%string
+  /\ g_heuristic_default = "Simple"%string.
+Proof. exact heuristics_dispatch_matches_source. Qed.
+Print Assumptions C05_source_heuristics_dispatch.
